@@ -75,6 +75,24 @@ def iter_value(ex, v: Val, st, node):
             return e
 
         return sq.n, el, "seq"
+    if ty is None:
+        # duck typing: iterating a value of unknown type needs it to be a list / tuple (else TypeError)
+        from .sorts import CLS
+
+        isseq = z3.And(V.is_r(v.t), ex.w.classes.isa(CLS(V.rid(v.t)), (list, tuple)))
+        ex.oblige(st, isseq, f"safe.iter@{getattr(node, 'lineno', 0)}", "safe", node, "iterated value is a list or tuple")
+        ex.safe_assume(st, isseq)
+        oid = V.rid(v.t)
+        n_ = st.arr("$len")[oid]
+        st.assume(n_ >= 0)
+        arr_ = st.arr("$el")[oid]
+
+        def el_any(k, s):
+            e = Val(z3.Select(arr_, k), None)
+            ex.assume_allocated(s, e.t)
+            return e
+
+        return n_, el_any, "seq"
     if isinstance(ty, type):
         for k in ty.__mro__:
             h = ex.w.handlers.get(f"{k.__module__}.{k.__qualname__}.__iter__")
